@@ -15,6 +15,7 @@ import PoetryVerif.Proofs.VRangeSepV
 import PoetryVerif.Proofs.VRangeInterU
 import PoetryVerif.Proofs.VRangeDiffU
 import PoetryVerif.Proofs.VRangeFinalSet
+import PoetryVerif.Proofs.VRangeInterAt
 
 set_option linter.unusedSimpArgs false
 set_option linter.unusedVariables false
@@ -722,13 +723,87 @@ theorem counterexample_intersect_sibling_gap :
   intro V W
   exact ⟨by decide, by decide, by decide⟩
 
+/-! ## union level without `RegB`: at a probe, and where the boundary runs
+
+`VC.PInv LoI HiI c p`: `c` is well-formed (sorted, separated) and all its members are range members that carry, at
+the probe `p`: the probe is regular for an exclusive lower end and for an inclusive upper end; for an INCLUSIVE lower
+end it is regular too, or the end is unstable (the hull of `<M` and `>=M`, `M` stable, covers the pre-releases of
+`M` that neither admits — `counterexample_union_of_adjacent_gap`).  `NoPoint`: no inclusive lower end equals an
+inclusive upper end (no intersection collapses to a `Version`).  Nothing is asked of the bounds among themselves. -/
+
+/-- **`VersionUnion.of` on range members, at a probe**: total, the result is well-formed, keeps the invariant and
+admits the probe exactly when a member does -/
+theorem union_of_at_probe {LoI HiI : List Version} (p : Version) (hp : p.wf = true) (l : List RC)
+    (hm : ∀ c ∈ l, RngMember c ∧ c.PSem LoI HiI p) :
+    ∃ res, unionOfFlat l = .ok res ∧ res.PInv LoI HiI p ∧ res.allowsPlain p = anyAllows l p := by
+  obtain ⟨res, h1, h2, h3, h4⟩ := unionOfFlat_at p hp l hm
+  exact ⟨res, h1, ⟨h2, h3⟩, h4⟩
+
+/-- **`intersect` of two constraints over range members (unions included), at a probe**: total — pairwise
+intersections, the merge walk, `VersionUnion.of` on the parts —, keeps the invariant, and admits the probe exactly
+when both operands do -/
+theorem intersect_at_probe {LoI HiI : List Version} (hnp : NoPoint LoI HiI) (p : Version) (hp : p.wf = true)
+    (a b : VC) (ha : a.PInv LoI HiI p) (hb : b.PInv LoI HiI p) :
+    ∃ c, VC.intersect a b = .ok c ∧ c.PInv LoI HiI p ∧ c.allowsPlain p = (a.allowsPlain p && b.allowsPlain p) :=
+  VC.intersect_at hnp p hp a b ha hb
+
+/-- **the half-open fragment with unstable lower ends** (every disjunction of `==V.*` clauses: `[X.dev0, Y.dev0)`
+members): `intersect` is exact on ALL versions, with no hypothesis on the bounds among themselves -/
+theorem halfopen_dev_intersect_exact (a b : VC) (ha : a.WF) (hb : b.WF)
+    (hma : ∀ x ∈ a.flatten, x.HalfOpenDev) (hmb : ∀ x ∈ b.flatten, x.HalfOpenDev) :
+    ∃ c, VC.intersect a b = .ok c ∧ c.WF ∧
+      ∀ p, p.wf = true → c.allowsPlain p = (a.allowsPlain p && b.allowsPlain p) := by
+  let LoI := a.bounds ++ b.bounds
+  have hnp : NoPoint LoI [] := fun _ _ M hM => by cases hM
+  have inv : ∀ p, a.PInv LoI [] p ∧ b.PInv LoI [] p := fun p =>
+    ⟨⟨ha, fun x hx => (hma x hx).psem LoI (fun e he => List.mem_append_left _ (by
+        rw [VC.bounds_eq_flatMap]; exact List.mem_flatMap.2 ⟨x, hx, he⟩)) p⟩,
+     ⟨hb, fun x hx => (hmb x hx).psem LoI (fun e he => List.mem_append_right _ (by
+        rw [VC.bounds_eq_flatMap]; exact List.mem_flatMap.2 ⟨x, hx, he⟩)) p⟩⟩
+  obtain ⟨c, hc, hci, _⟩ := VC.intersect_at hnp (Version.mk' 0 [0] none none none none) (by decide) a b
+    (inv _).1 (inv _).2
+  refine ⟨c, hc, hci.1, fun p hp => ?_⟩
+  obtain ⟨c', hc', _, hs⟩ := VC.intersect_at hnp p hp a b (inv p).1 (inv p).2
+  rw [hc] at hc'; injection hc' with hc'; subst hc'
+  exact hs
+
+/-- … and so is `VersionUnion.of` -/
+theorem halfopen_dev_union_of_exact (l : List RC) (hm : ∀ x ∈ l, x.HalfOpenDev) :
+    ∃ res, unionOfFlat l = .ok res ∧ res.WF ∧ ∀ p, p.wf = true → res.allowsPlain p = anyAllows l p := by
+  have inv : ∀ p, ∀ c ∈ l, RngMember c ∧ c.PSem (boundsOf l) [] p := fun p c hc =>
+    (hm c hc).psem (boundsOf l) (fun e he => List.mem_flatMap.2 ⟨c, hc, he⟩) p
+  obtain ⟨res, h1, h2, _, _⟩ := unionOfFlat_at (Version.mk' 0 [0] none none none none) (by decide) l (inv _)
+  refine ⟨res, h1, h2, fun p hp => ?_⟩
+  obtain ⟨res', h1', _, _, h4⟩ := unionOfFlat_at p hp l (inv p)
+  rw [h1] at h1'; injection h1' with h1'; subst h1'
+  exact h4
+
+/-- the complement, for half-open ranges with a STABLE inclusive lower end: `VersionUnion.of` merges the adjacent
+`>=2,<3` and `>=3,<4` (`^2 || ^3`) into `>=2,<4`, which admits `3.dev0`; neither range admits it (`<3` ends at
+`3.dev0`, exclusive).  Known class `adjacent-union-gap`. -/
+theorem counterexample_union_of_adjacent_gap :
+    let two := Version.mk' 0 [2] none none none none
+    let three := Version.mk' 0 [3] none none none none
+    let four := Version.mk' 0 [4] none none none none
+    let p := Version.mk' 0 [3] none none (some ⟨.dev, 0⟩) none
+    unionOfFlat [.rng ⟨some two, some three, true, false⟩, .rng ⟨some three, some four, true, false⟩] =
+      .ok (.single (.rng ⟨some two, some four, true, false⟩)) ∧
+    (⟨some two, some four, true, false⟩ : VRange).allows p = true ∧
+    (⟨some two, some three, true, false⟩ : VRange).allows p = false ∧
+    (⟨some three, some four, true, false⟩ : VRange).allows p = false := by
+  intro two three four p
+  exact ⟨by decide, by decide, by decide, by decide⟩
+
 /-- C05 for arbitrary constraints (unions included), with the carve-out of the known finding.  Proved: this
 statement under the extra hypothesis `RegB` (bounds mutually regular, none local): `C05_regular_partial`; without
 it: every non-union case of `intersect` (defined + exact), the non-union cases of `union` and `difference` under
 the named hypotheses, `VersionUnion.of` membership preservation, the union ∩ walk, the empty/universal laws and
 commutativity; on EVERY probe: `intersect` of non-union operands at probes fine for both
 (`intersect_exact_at_fine_probe`), of half-open ranges (`halfopen_intersect_exact`) and of members over final versions
-(`final_intersect_exact`), with `counterexample_intersect_sibling_gap` for the complement.  Not proved without `RegB`:
+(`final_intersect_exact`), with `counterexample_intersect_sibling_gap` for the complement; at the union level without
+`RegB`: `VersionUnion.of` and `intersect` at a probe (`union_of_at_probe`, `intersect_at_probe`), on all versions for the
+half-open fragment with unstable lower ends (`halfopen_dev_intersect_exact`, `halfopen_dev_union_of_exact`), with
+`counterexample_union_of_adjacent_gap` for stable lower ends.  Not proved without `RegB`: union ∪ / − at a probe, and
 the union-level results for bounds that are local builds or irregular for each other (e.g. `<2.0 || >=2.0a1`). -/
 def C05_full_statement : Prop :=
   ∀ a b : VC, a.WF → b.WF →
